@@ -543,7 +543,30 @@ def mk_ite(c, a, b):
             return mk_and([c, a])
         if cb is True and _boolish(a):
             return mk_or([mk_not(c), a])
+    mm = _as_minmax(c, a, b)
+    if mm is not None:
+        return mm
     return atom(("ite", c, a, b))
+
+
+def _as_minmax(c, a, b):
+    """`a if a < b else b` and its variants are min / max of the two operands: one canonical form for the conditional, the
+    compare-and-assign idiom (`if s < m: m = s`) and the builtin call (real arithmetic; NaN ordering is not modelled)."""
+    ca = c.single_atom() if isinstance(c, R) else None
+    if ca is None or ca[0] != "cmp" or ca[1] not in ("<", "<=", ">", ">="):
+        return None
+    if not (isinstance(a, R) and isinstance(b, R)):
+        return None
+    d = ca[2]
+    if same(d, a - b):
+        which = "min" if ca[1] in ("<", "<=") else "max"      # a op b ? a : b
+    elif same(d, b - a):
+        which = "max" if ca[1] in ("<", "<=") else "min"      # b op a ? a : b
+    else:
+        return None
+    if a.is_const() and b.is_const():
+        return None
+    return atom(("call", which, tuple(sorted((a, b), key=akey)), ()))
 
 
 def same(a, b):
